@@ -24,6 +24,16 @@ class shared_ptr {
     template<class Y, class = ::std::enable_if_t<::std::is_convertible<Y*, T*>::value>>
     explicit shared_ptr(Y* p) : p_(p) {}
     shared_ptr(::std::shared_ptr<T> real) noexcept : p_(::std::move(real)) {}          // from the real type (make_shared below)
+    // the remaining constructors of std::shared_ptr, forwarded (so that library code that uses them still compiles against the model)
+    template<class Y, class D, class = ::std::enable_if_t<::std::is_convertible<Y*, T*>::value>>
+    shared_ptr(Y* p, D d) : p_(p, ::std::move(d)) {}
+    template<class D> shared_ptr(::std::nullptr_t, D d) : p_(nullptr, ::std::move(d)) {}
+    template<class Y, class D, class A, class = ::std::enable_if_t<::std::is_convertible<Y*, T*>::value>>
+    shared_ptr(Y* p, D d, A a) : p_(p, ::std::move(d), ::std::move(a)) {}
+    template<class Y> shared_ptr(const shared_ptr<Y>& r, element_type* ptr) noexcept : p_((::vrt::hb_read(r.sh_, kWhat), r.p_), ptr) {}      // aliasing
+    template<class Y, class D, class = ::std::enable_if_t<::std::is_convertible<Y*, T*>::value>>
+    shared_ptr(::std::unique_ptr<Y, D>&& u) : p_(::std::move(u)) {}
+    template<class Y> explicit shared_ptr(const ::std::weak_ptr<Y>& w) : p_(w) {}
     shared_ptr(const shared_ptr& o) noexcept : p_((::vrt::hb_read(o.sh_, kWhat), o.p_)) {}
     template<class Y, class = ::std::enable_if_t<::std::is_convertible<Y*, T*>::value>>
     shared_ptr(const shared_ptr<Y>& o) noexcept : p_((::vrt::hb_read(o.sh_, kWhat), o.p_)) {}
@@ -46,8 +56,34 @@ class shared_ptr {
     element_type* operator->() const noexcept { ::vrt::hb_read(sh_, kWhat); return p_.get(); }
     long use_count() const noexcept { return p_.use_count(); }
     explicit operator bool() const noexcept { return static_cast<bool>(p_); }
+    bool unique() const noexcept { return p_.use_count() == 1; }
+    template<class Y> bool owner_before(const shared_ptr<Y>& o) const noexcept { return p_.owner_before(o.p_); }
     const ::std::shared_ptr<T>& vrt_real() const noexcept { return p_; }
 };
+
+// weak_ptr over the model: observes the wrapped real shared_ptr
+template<class T>
+class weak_ptr {
+    ::std::weak_ptr<T> w_;
+  public:
+    constexpr weak_ptr() noexcept = default;
+    template<class Y, class = ::std::enable_if_t<::std::is_convertible<Y*, T*>::value>>
+    weak_ptr(const shared_ptr<Y>& s) noexcept : w_(s.vrt_real()) {}
+    weak_ptr(const weak_ptr&) noexcept = default;
+    weak_ptr(weak_ptr&&) noexcept = default;
+    weak_ptr& operator=(const weak_ptr&) noexcept = default;
+    weak_ptr& operator=(weak_ptr&&) noexcept = default;
+    template<class Y> weak_ptr& operator=(const shared_ptr<Y>& s) noexcept { w_ = s.vrt_real(); return *this; }
+    shared_ptr<T> lock() const noexcept { return shared_ptr<T>(w_.lock()); }
+    bool expired() const noexcept { return w_.expired(); }
+    long use_count() const noexcept { return w_.use_count(); }
+    void reset() noexcept { w_.reset(); }
+};
+template<class T, class U> shared_ptr<T> static_pointer_cast(const shared_ptr<U>& r) noexcept { return shared_ptr<T>(::std::static_pointer_cast<T>(r.vrt_real())); }
+template<class T, class U> shared_ptr<T> const_pointer_cast(const shared_ptr<U>& r) noexcept { return shared_ptr<T>(::std::const_pointer_cast<T>(r.vrt_real())); }
+template<class T, class U> shared_ptr<T> dynamic_pointer_cast(const shared_ptr<U>& r) noexcept { return shared_ptr<T>(::std::dynamic_pointer_cast<T>(r.vrt_real())); }
+template<class T> void swap(shared_ptr<T>& a, shared_ptr<T>& b) noexcept { a.swap(b); }
+template<class T, class U> bool operator<(const shared_ptr<T>& a, const shared_ptr<U>& b) noexcept { return a.vrt_real() < b.vrt_real(); }
 
 template<class T, class U> bool operator==(const shared_ptr<T>& a, const shared_ptr<U>& b) noexcept { return a.vrt_real() == b.vrt_real(); }
 template<class T, class U> bool operator!=(const shared_ptr<T>& a, const shared_ptr<U>& b) noexcept { return !(a == b); }
